@@ -170,6 +170,12 @@ type RecB struct {
 	B int `db:"b"`
 }
 
+// a cycle of embedded pointers that is reachable from the sample but does not contain it
+type RecRoot struct {
+	*RecA
+	R int `db:"r"`
+}
+
 type IntMap map[string]int
 type MyStr string
 type KM map[MyStr]any
@@ -228,6 +234,34 @@ type Mixed struct {
 	No int
 }
 
+// a tag-less struct reached along two embedding paths (diamond) and directly
+// plus through a sibling: well-typed, not self-embedding
+type Audit struct {
+	By string
+	At int
+}
+
+type Ident struct {
+	Audit
+	ID int `db:"id"`
+}
+
+type Contact2 struct {
+	Audit
+	Email string `db:"email"`
+}
+
+type Diamond struct {
+	Ident
+	Contact2
+}
+
+type Twice struct {
+	Audit
+	Ident
+	N int `db:"n"`
+}
+
 // named byte-slice types: database/sql special-cases only the unnamed []byte
 type Blob []byte
 
@@ -250,15 +284,15 @@ var zooSamples = []zooEntry{
 	{"Quoted", Quoted{}}, {"Unicode", Unicode{}}, {"Numeric", Numeric{}}, {"NoTags", NoTags{}},
 	{"Unexported", Unexported{}}, {"BadFlag", BadFlag{}}, {"BadEmpty", BadEmpty{}}, {"BadQuote", BadQuote{}},
 	{"BadChar", BadChar{}}, {"BadDigit", BadDigit{}}, {"DupTag", DupTag{}}, {"DupEmbed", DupEmbed{}},
-	{"Rec", Rec{}}, {"RecA", RecA{}}, {"M", sqlair.M{}}, {"IntMap", IntMap{}}, {"KM", KM{}}, {"BadMap", BadMap{}},
+	{"Rec", Rec{}}, {"RecA", RecA{}}, {"RecRoot", RecRoot{}}, {"M", sqlair.M{}}, {"IntMap", IntMap{}}, {"KM", KM{}}, {"BadMap", BadMap{}},
 	{"S", sqlair.S{}}, {"IntSlice", IntSlice{}}, {"StrSlice", StrSlice{}}, {"PersonSlice", PersonSlice{}},
 	{"Priced", Priced{}}, {"TaggedEmbed", TaggedEmbed{}}, {"EmbedUnexported", EmbedUnexported{}},
-	{"EmbedNonStruct", EmbedNonStruct{}}, {"Mixed", Mixed{}}, {"Doc", Doc{}},
+	{"EmbedNonStruct", EmbedNonStruct{}}, {"Mixed", Mixed{}}, {"Doc", Doc{}}, {"Diamond", Diamond{}}, {"Twice", Twice{}},
 	{"zoo2.Person", zoo2.Person{}}, {"zoo2.M", zoo2.M{}}, {"zoo2.IntSlice", zoo2.IntSlice{}},
 }
 
 // good types for statement generation (Prepare succeeds with them)
-var goodStructs = []string{"Person", "Address", "Manager", "Embed", "EmbedPtr", "Deep", "Deep4", "Contact", "AutoID", "AutoID", "Omit", "PtrFields", "Quoted", "Unicode", "Numeric", "Priced", "TaggedEmbed", "EmbedUnexported", "EmbedNonStruct", "Mixed", "Doc"}
+var goodStructs = []string{"Person", "Address", "Manager", "Embed", "EmbedPtr", "Deep", "Deep4", "Contact", "AutoID", "AutoID", "Omit", "PtrFields", "Quoted", "Unicode", "Numeric", "Priced", "TaggedEmbed", "EmbedUnexported", "EmbedNonStruct", "Mixed", "Doc", "Diamond", "Twice"}
 var goodMaps = []string{"M", "IntMap", "KM"}
 var goodSlices = []string{"S", "IntSlice", "StrSlice", "PersonSlice"}
 
